@@ -50,6 +50,9 @@ static void pseudo_qxx(Integer num) {
     if (!ChkArgCnt(1, ArgCntMax)) {
         return;
     }
+    if (SetMaxCodeLen(ArgCnt * 2)) {
+        return;
+    }
 
     forallargs(pArg, True) {
         if (!*pArg->str.p_str) {
@@ -82,6 +85,9 @@ static void pseudo_lqxx(Integer num) {
     LongInt   resli;
 
     if (!ChkArgCnt(1, ArgCntMax)) {
+        return;
+    }
+    if (SetMaxCodeLen(ArgCnt * 4)) {
         return;
     }
 
@@ -134,6 +140,14 @@ static void pseudo_store(tcallback callback, Word MaxMultCharLen) {
         }
 
         EvalStrExpression(pArg, &t);
+        if (SetMaxCodeLen(
+                    2
+                    * (CodeLen + 2
+                       + ((t.Typ == TempString) ? 2 * t.Contents.str.len : 0)))) {
+            WrError(ErrNum_CodeOverflow);
+            ok = False;
+            break;
+        }
         switch (t.Typ) {
         case TempFloat:
             WrStrErrorPos(ErrNum_StringOrIntButFloat, pArg);
@@ -656,7 +670,7 @@ static void DecodeSINGLE(Word Code) {
 
     UNUSED(Code);
 
-    if (ChkArgCnt(1, ArgCntMax)) {
+    if (ChkArgCnt(1, ArgCntMax) && !SetMaxCodeLen(ArgCnt * 4)) {
         OK = True;
         forallargs(pArg, True) if (OK) {
             f = EvalStrFloatExpression(pArg, Float64, &OK);
@@ -677,7 +691,7 @@ static void DecodeEXTENDED(Word Code) {
 
     UNUSED(Code);
 
-    if (ChkArgCnt(1, ArgCntMax)) {
+    if (ChkArgCnt(1, ArgCntMax) && !SetMaxCodeLen(ArgCnt * 8)) {
         OK = True;
         forallargs(pArg, True) if (OK) {
             f = EvalStrFloatExpression(pArg, Float64, &OK);
@@ -698,7 +712,7 @@ static void DecodeWORD_TI34x(Word Code) {
 
     UNUSED(Code);
 
-    if (ChkArgCnt(1, ArgCntMax)) {
+    if (ChkArgCnt(1, ArgCntMax) && !SetMaxCodeLen(ArgCnt * 4)) {
         OK = True;
         forallargs(pArg, True) if (OK) DAsmCode[CodeLen++]
                 = EvalStrIntExpression(pArg, Int32, &OK);
@@ -720,6 +734,14 @@ static void DecodeDATA_TI34x(Word Code) {
         OK = True;
         forallargs(pArg, OK) if (OK) {
             EvalStrExpression(pArg, &t);
+            if (SetMaxCodeLen(
+                        4
+                        * (CodeLen + 1
+                           + ((t.Typ == TempString) ? t.Contents.str.len : 0)))) {
+                WrError(ErrNum_CodeOverflow);
+                OK = False;
+                break;
+            }
             switch (t.Typ) {
             case TempInt:
             ToInt:
